@@ -44,7 +44,7 @@ func FN_writeTextFromFile(receiver r.Element, values []r.Element) (r.Element, er
 	if err != nil {
 		return nil, value.ThrowException("写入文件失败：" + err.Error())
 	}
-	return nil, nil
+	return value.NewNull(), nil
 }
 
 func FN_readDir(receiver r.Element, values []r.Element) (r.Element, error) {
